@@ -84,6 +84,7 @@ type ty struct {
 	params []*ty  // func
 	res    *ty    // func
 	part   bool   // func: the result is in Option (the function can panic)
+	caps   []string // closure without results: the captured builders it appends to (passed and returned)
 }
 
 var (
@@ -272,6 +273,8 @@ var funcSpecs = []funcSpec{
 	{pkg: "snaps", name: "occurrences", sig: "tests:map[string]int,count:int,formatter:func(string, int) string->set", out: "IO"},
 	{pkg: "snaps", name: "examineSnaps", sig: "registry:map[string]map[string]int,used:[]string,runOnly:string,count:int,update:bool,sort:bool->[]string,error", out: "IO", fx: "rw",
 		extra: []param{{"regexpMatchString", fnOf(pairOf(tBool, tBool), tText, tText)}, {"skipped", tTexts}}},
+	{pkg: "snaps", name: "printEvent", sig: "w:io.Writer,color:string,symbol:string,verb:string,events:int->", out: "IO", inout: []string{"w"}},
+	{pkg: "snaps", name: "summary", sig: "obsoleteFiles:[]string,obsoleteTests:[]string,NOskippedTests:int,testEvents:map[uint8]int,shouldUpdate:bool->string", out: "IO"},
 	{pkg: "snaps", name: "isFileSkipped", sig: "dir:string,filename:string,runOnly:string->bool", out: "IO",
 		extra:  []param{{"parseFile", fnOf(pairOf(tDecls, tErr), tText)}, {"regexpMatchString", fnOf(pairOf(tBool, tBool), tText, tText)}},
 		extFns: map[string]param{"regexp.MatchString": {"regexpMatchString", fnOf(pairOf(tBool, tBool), tText, tText)}}},
@@ -279,11 +282,10 @@ var funcSpecs = []funcSpec{
 		extra: []param{{"parseFile", fnOf(pairOf(tDecls, tErr), tText)}, {"regexpMatchString", fnOf(pairOf(tBool, tBool), tText, tText)}}},
 	{pkg: "snaps", name: "Clean", sig: "m:*testing.M,opts:...CleanOpts->", out: "IO", fx: "st",
 		extra: []param{{"parseFile", fnOf(pairOf(tDecls, tErr), tText)}, {"regexpMatchString", fnOf(pairOf(tBool, tBool), tText, tText)},
-			{"runFlag", tText}, {"countFlag", pairOf(tInt, tErr)}, {"summaryFn", fnOf(tText, tTexts, tTexts, tInt, tMap1, tBool)}},
+			{"runFlag", tText}, {"countFlag", pairOf(tInt, tErr)}},
 		externs: map[string]param{"flag.Lookup(\"test.run\").Value.String()": {"runFlag", tText},
 			"strconv.Atoi(flag.Lookup(\"test.count\").Value.String())": {"countFlag", pairOf(tInt, tErr)},
-			"skippedTests.values": {"st.skipped", tTexts}},
-		extFns: map[string]param{"summary": {"summaryFn", fnOf(tText, tTexts, tTexts, tInt, tMap1, tBool)}}},
+			"skippedTests.values": {"st.skipped", tTexts}}},
 	// the Match* flows
 	{pkg: "snaps", name: "handleError", sig: "t:testingT,err:any->", out: "IO", fx: "st"},
 	{pkg: "snaps", name: "takeSnapshot", sig: "objects:[]any->string", out: "IO"},
@@ -501,6 +503,9 @@ func goType(e ast.Expr) *ty {
 			return tMap2
 		case "string>string":
 			return tSMap
+		case "uint8>int":
+			// testEvents.items: keyed by the event kind; the keys are the names of the iota constants
+			return tMap1
 		}
 	case *ast.FuncType:
 		// func(string, int) string: a formatter; it may be a function that can panic
@@ -528,6 +533,10 @@ func goType(e ast.Expr) *ty {
 			return tMatch
 		case "match.MatcherError":
 			return tMErr
+		case "io.Writer":
+			// an io.Writer parameter is always the address of a strings.Builder in the translated code:
+			// its content, in-out
+			return tText
 		}
 	case *ast.ArrayType:
 		if e.Len == nil {
@@ -1403,6 +1412,10 @@ func (t *ftr) funcLit(b *strings.Builder, ind, name string, fl *ast.FuncLit) {
 			ps = append(ps, param{n.Name, pt})
 		}
 	}
+	if fl.Type.Results == nil {
+		t.closure(b, ind, name, fl, ps)
+		return
+	}
 	if fl.Type.Results == nil || len(fl.Type.Results.List) != 1 || len(fl.Type.Results.List[0].Names) > 1 {
 		t.stmtFail(b, ind, "function literal must have one result")
 		return
@@ -1994,6 +2007,9 @@ func translateFunc(pkg *pkgInfo, sp *funcSpec, consts map[string]bool, funcs map
 	for _, n := range sp.inout {
 		if !pnames[n] {
 			ffail("funcs: %s has no parameter %s", sp.name, n)
+		}
+		if t.lookup(n).k == "text" {
+			t.builder[n] = true // an io.Writer parameter
 		}
 	}
 	for _, pt := range pts {
